@@ -684,6 +684,12 @@ func c05Objects(c *Ctx) {
 		{"a := {\"k\": 1}\nfunc f(m) {\n  m.k := 7\n  m[\"j\"] := 8\n}\nf(a)\nprobe(\"map-parameter-by-reference#1\", a.k)\nprobe(\"map-parameter-by-reference#2\", a.j)\n", []string{"map-parameter-by-reference#1=7", "map-parameter-by-reference#2=8"}},
 		{"a := {\"k\": {\"l\": [1, {\"m\": 2}]}}\na.k.l[1].m := 5\nprobe(\"nested-path#1\", a.k.l[1].m)\na[\"k\"][\"l\"][0] := 6\nprobe(\"nested-path#2\", a.k.l[0])\nprobe(\"nested-path#3\", a[\"k\"].l[-1][\"m\"])\n", []string{"nested-path#1=5", "nested-path#2=6", "nested-path#3=5"}},
 		{"m := {1: \"a\"}\nm[1] := \"b\"\nprobe(\"number-key-write-then-read\", m[1])\nprobe(\"number-key-len\", len(m))\n", []string{`number-key-write-then-read="b"`, "number-key-len=1"}},
+		// except / otherwise / finally blocks are siblings of the try block, not its children: names local to the try block are not visible in them
+		{"x := \"global\"\ntry {\n  let x := \"inner\"\n  raise(\"E\")\n} except e {\n  probe(\"handler-sees-enclosing#1\", x)\n  x := \"assigned\"\n} finally {\n  probe(\"handler-sees-enclosing#2\", x)\n}\nprobe(\"handler-sees-enclosing#3\", x)\n",
+			[]string{`handler-sees-enclosing#1="global"`, `handler-sees-enclosing#2="assigned"`, `handler-sees-enclosing#3="assigned"`}},
+		{"func f() {\n  let r := []\n  try {\n    fresh := 1\n    let z := 2\n    raise(\"E\")\n  } except \"X\" {\n    r := add(r, \"wrong\")\n  } except {\n    r := add(r, fresh)\n    r := add(r, z)\n  }\n  return r\n}\nprobe(\"try-locals-not-in-handler\", f())\n",
+			[]string{"try-locals-not-in-handler=[null,null]"}},
+		{"x := 1\ntry {\n  let x := 2\n} otherwise {\n  probe(\"otherwise-sees-enclosing\", x)\n}\n", []string{"otherwise-sees-enclosing=1"}},
 		// a map holding the number key 1 and the string key "1": whatever entry a write goes to, the same expression reads it back
 		{"m := {1: \"num\", \"1\": \"str\"}\nm[1] := \"new\"\nprobe(\"both-key-kinds#1\", m[1])\nm[\"1\"] := \"s2\"\nprobe(\"both-key-kinds#2\", m[\"1\"])\n", []string{`both-key-kinds#1="new"`, `both-key-kinds#2="s2"`}},
 		{"m := {\"1\": \"str\", 1: \"num\"}\nn := m\nn[1] := \"new\"\nprobe(\"both-key-kinds#3\", m[1])\nk := {\"inner\": m}\nk.inner[1] := \"deep\"\nprobe(\"both-key-kinds#4\", k.inner[1])\n", []string{`both-key-kinds#3="new"`, `both-key-kinds#4="deep"`}},
